@@ -13,7 +13,7 @@ func init() {
 		Technique: "property-based testing (rapid): generated set/for/if/macro nestings with colliding names vs the scope discipline of the reference evaluator, observed through output and a probe() callback",
 		Rule: "programs made of set, set-capture, if, for, macro definition/call and probe(name) (reports defined?/value from Context.Scope()), names drawn from small pools so loop variables, macro parameters, captures and outer variables collide; " +
 			"the generator withholds what the statement excludes (set of a shadowed name, macro bodies reading caller variables). Oracle: reference evaluator output and callback log. " +
-			"Non-trivial: the model run updated an existing variable from inside a loop/if, or created a loop-local variable, and the program observes variables after a loop or macro call; distinct by program. probe() reads the name through Scope().Get and Scope().All() and reports a disagreement; loops over lists of nulls; large instances (1100 variables updated from inside loops, 120 nested loops over one name).",
+			"Non-trivial: the model run updated an existing variable from inside a loop/if, or created a loop-local variable, and the program observes variables after a loop or macro call; distinct by program. probe() reads the name through Scope().Get and Scope().All() and reports a disagreement; loops over lists of nulls; a macro that loops and calls itself from the loop body (bounded depth) and reads loop variables, metadata, parameters and captures after the nested call; large instances (1100 variables updated from inside loops, 120 nested loops over one name).",
 		Assumptions: []string{"reference evaluator trusted inside the agreement region; a variable first set in one iteration and read in a later one is outside the region (stick scopes per iteration)"},
 	}
 	sub := modelSub(p, "scope", compareOpts{}, func(cs *progCase, res *m.Result) bool {
